@@ -1,5 +1,6 @@
 import NixModel.Lemmas.C02Store
 import NixModel.Lemmas.C02Handles
+import NixModel.Lemmas.C02HandlesAny
 
 /-!
 # C02 — closing and reopening a file reproduces the complete observable state
@@ -137,6 +138,27 @@ theorem handle_independence (ops : List Handles.Op) (hops : ∀ op ∈ ops, op.i
       truth (Handles.run Code.current Handles.init ops).1 h.name := by
   have hI := inv_run inv_init ops hops
   exact view_eq_truth hI.toCore (hI.hok h (List.mem_of_getElem? hi))
+
+open Nix.Handles Nix.Handles.Lemmas in
+/-- **handle independence, partial — for every version of the code** (both `Code` flags arbitrary,
+in particular the pinned tree before the repairs): as long as no link-list group is removed while
+handles are alive — every `delete` is without delete-if-empty, or the lists live at depth ≤ 1 where
+nixio never removes them — every handle shows what a freshly opened handle shows. What the old
+code needed this hypothesis for is exactly D9 (`handle_independence_before_counterexample`). -/
+theorem handle_independence_partial (cd : Code) (d : Nat) (ops : List Handles.Op)
+    (hops : ∀ op ∈ ops, op.isListOp = true ∧ keepsGroups d op = true)
+    (i : Nat) (h : Handle) (hi : (Handles.run cd { depth := d } ops).1.handles[i]? = some h) :
+    view cd (Handles.run cd { depth := d } ops).1 h = truth (Handles.run cd { depth := d } ops).1 h.name := by
+  have hI := inv'_run cd (inv'_init d) ops hops
+  exact view_eq_truth' cd hI.toCore (hI.hok h (List.mem_of_getElem? hi))
+
+open Nix.Handles Nix.Handles.Lemmas in
+/-- non-vacuity of the hypothesis: a history with two handles, links and unlinks that keeps the group -/
+example : (∀ op ∈ ([.openH "tags" false, .openH "tags" true, .createLink 0 "x" 3, .delete 1 "x" false,
+      .createLink 1 "y" 4, .read 0] : List Handles.Op), op.isListOp = true ∧ keepsGroups 5 op = true) ∧
+    ((Handles.run Code.before { depth := 5 } [.openH "tags" false, .openH "tags" true, .createLink 0 "x" 3,
+      .delete 1 "x" false, .createLink 1 "y" 4, .read 0]).2.getLast? = some (.entries [("y", 4)])) := by
+  decide +kernel
 
 open Nix.Handles in
 /-- the D9 history: two handles on `data_arrays`; entry linked through handle 0, seen by handle 1;
